@@ -79,14 +79,16 @@ Inductive mev :=
 | MMsg (m : mmsg)                (* message_received *)
 | MWake (w : nat)                (* the acquire of w returns and _receive runs to its end *)
 | MTimeout (w : nat)             (* async_timeout fires: except-branch of _receive *)
-| MCancel (w : nat).             (* the task is cancelled: same except-branch (BaseException) *)
+| MCancel (w : nat)              (* the task is cancelled: same except-branch (BaseException) *)
+| MReqFail (w : nat).            (* connection.send raises (write error): nothing has been registered yet *)
 
 Inductive mout :=
 | MDeliver (w : nat) (r : option N)   (* value returned; None = the placeholder ProtocolMessage() *)
 | MListen (t : N) (tag : N)           (* self.dispatch(message.type, message) *)
 | MTimeoutErr (w : nat)
 | MKeyErr (w : nat)                   (* KeyError out of `self._outstanding[identifier].response` after a wake-up *)
-| MCancelled (w : nat).
+| MCancelled (w : nat)
+| MSendErr (w : nat).                  (* the exception of the failed write, raised in the caller *)
 
 Record mst := MkM {
   m_out : list (mkey * (nat * option N));   (* _outstanding: identifier -> (semaphore, response) *)
@@ -135,6 +137,7 @@ Definition mstep (s : mst) (e : mev) : mst * list mout :=
           (MkM (adel mkey_eqb k (m_out s)) (adel Nat.eqb w (m_wait s)), [MCancelled w])
       | None => (s, [])
       end
+  | MReqFail w => (s, [MSendErr w])
   end.
 
 (* ============================================================= Companion *)
@@ -166,14 +169,16 @@ Inductive cev :=
 | CFrame (f : cframe)            (* frame_received *)
 | CWake (w : nat)
 | CTimeout (w : nat)             (* asyncio.wait_for expires *)
-| CCancel (w : nat).
+| CCancel (w : nat)
+| CReqFail (w : nat).            (* connection.send raises: the transaction id is used up, nothing is queued *)
 
 Inductive cout :=
 | CDeliver (w : nat) (tag : N)
 | CProtoErr (w : nat) (tag : N)  (* "_em" in the response: ProtocolError in the caller *)
 | CListen (tag : N)              (* listener.event_received(_i, _c) *)
 | CTimeoutErr (w : nat)
-| CCancelled (w : nat).
+| CCancelled (w : nat)
+| CSendErr (w : nat).
 
 Record cst := MkC {
   c_next : N;                                 (* self._xid *)
@@ -238,6 +243,7 @@ Definition cstep (s : cst) (e : cev) : cst * list cout :=
       | Some _ => (MkC (c_next s) (c_q s) (adel Nat.eqb w (c_wait s)), [CCancelled w])
       | None => (s, [])
       end
+  | CReqFail w => (MkC (N.succ (c_next s)) (c_q s) (c_wait s), [CSendErr w])
   end.
 
 (* ================================================================== HTTP *)
@@ -292,13 +298,15 @@ Definition h_abort (w : nat) (s : hst) : option hst :=
   end.
 
 Inductive hev :=
-| HReq (w : nat) (allow : bool) | HResp (r : hresp) | HWake (w : nat) | HTimeout (w : nat) | HCancel (w : nat).
+| HReq (w : nat) (allow : bool) | HResp (r : hresp) | HWake (w : nat) | HTimeout (w : nat) | HCancel (w : nat)
+| HReqFail (w : nat).     (* transport.write / send_processor raises: the request was never queued *)
 Inductive hout :=
 | HDeliver (w : nat) (r : hresp)
 | HAuthErr (w : nat) (r : hresp)      (* AuthenticationError caused by response r *)
 | HHttpErr (w : nat) (r : hresp)      (* HttpError caused by response r *)
 | HTimeoutErr (w : nat)
-| HCancelled (w : nat).
+| HCancelled (w : nat)
+| HSendErr (w : nat).
 
 Definition hres_out (w : nat) (x : hres) : hout :=
   match x with HROk r => HDeliver w r | HRAuth r => HAuthErr w r | HRHttp r => HHttpErr w r end.
@@ -316,6 +324,7 @@ Definition hstep (s : hst) (e : hev) : hst * list hout :=
       match h_abort w s with Some s' => (s', [HTimeoutErr w]) | None => (s, []) end
   | HCancel w =>
       match h_abort w s with Some s' => (s', [HCancelled w]) | None => (s, []) end
+  | HReqFail w => (s, [HSendErr w])
   end.
 
 (* ================================================================== RTSP *)
@@ -329,7 +338,8 @@ Record rst := MkR {
 Definition r_init : rst := MkR h_init 0 [] [] [].
 
 Inductive rtev :=
-| RReq (w : nat) (allow : bool) | RResp (r : hresp) | RWake (w : nat) | RTimeout (w : nat) | RCancel (w : nat).
+| RReq (w : nat) (allow : bool) | RResp (r : hresp) | RWake (w : nat) | RTimeout (w : nat) | RCancel (w : nat)
+| RReqFail (w : nat).     (* the write fails inside connection.send_and_receive: CSeq used, self.requests[cseq] stays *)
 
 (* "insert response for correct CSeq and activate event" *)
 Definition r_file (r : hresp) (reqs : list (nat * (nat * option hresp))) :=
@@ -378,6 +388,9 @@ Definition rstep (s : rst) (e : rtev) : rst * list hout :=
           | None => (s, [])
           end
       end
+  | RReqFail w =>
+      (MkR (r_http s) (S (r_next s)) (aset Nat.eqb (r_next s) (w, None) (r_reqs s)) (r_ph1 s) (r_ph2 s),
+       [HSendErr w])
   | RTimeout w | RCancel w =>
       let o := match e with RTimeout _ => HTimeoutErr w | _ => HCancelled w end in
       match aget Nat.eqb w (r_ph1 s) with
@@ -395,13 +408,19 @@ Definition rstep (s : rst) (e : rtev) : rst * list hout :=
       end
   end.
 
+(* ============================================================ dispatcher *)
+(* MessageDispatcher.dispatch (pyatv/core/protocol.py:97): the listeners registered for the type, in
+   registration order, each with the verdict of its message_filter on this message; the calls made *)
+Definition dispatch_calls (ls : list (bool * nat)) : list nat := map snd (filter fst ls).
+
 (* ======================================================== correspondence *)
 Definition optN_eqb := opt_beq N.eqb.
 Definition mout_eqb (a b : mout) : bool :=
   match a, b with
   | MDeliver w r, MDeliver w' r' => Nat.eqb w w' && optN_eqb r r'
   | MListen t g, MListen t' g' => N.eqb t t' && N.eqb g g'
-  | MTimeoutErr w, MTimeoutErr w' | MKeyErr w, MKeyErr w' | MCancelled w, MCancelled w' => Nat.eqb w w'
+  | MTimeoutErr w, MTimeoutErr w' | MKeyErr w, MKeyErr w' | MCancelled w, MCancelled w'
+  | MSendErr w, MSendErr w' => Nat.eqb w w'
   | _, _ => false
   end.
 Definition m_is_listen (o : mout) : bool := match o with MListen _ _ => true | _ => false end.
@@ -421,7 +440,7 @@ Definition cout_eqb (a b : cout) : bool :=
   match a, b with
   | CDeliver w g, CDeliver w' g' | CProtoErr w g, CProtoErr w' g' => Nat.eqb w w' && N.eqb g g'
   | CListen g, CListen g' => N.eqb g g'
-  | CTimeoutErr w, CTimeoutErr w' | CCancelled w, CCancelled w' => Nat.eqb w w'
+  | CTimeoutErr w, CTimeoutErr w' | CCancelled w, CCancelled w' | CSendErr w, CSendErr w' => Nat.eqb w w'
   | _, _ => false
   end.
 Definition c_is_listen (o : cout) : bool := match o with CListen _ => true | _ => false end.
@@ -439,7 +458,7 @@ Definition hout_eqb (a b : hout) : bool :=
   match a, b with
   | HDeliver w r, HDeliver w' r' | HHttpErr w r, HHttpErr w' r' => Nat.eqb w w' && hresp_eqb r r'
   | HAuthErr w _, HAuthErr w' _ => Nat.eqb w w'   (* "not authenticated" does not say which response *)
-  | HTimeoutErr w, HTimeoutErr w' | HCancelled w, HCancelled w' => Nat.eqb w w'
+  | HTimeoutErr w, HTimeoutErr w' | HCancelled w, HCancelled w' | HSendErr w, HSendErr w' => Nat.eqb w w'
   | _, _ => false
   end.
 
@@ -453,3 +472,7 @@ Definition rtsp_check (c : list rtev * list hout) : bool :=
   let f := final rstep r_init h in
   list_beq hout_eqb (outs rstep r_init h) outcomes
   && match r_ph1 f, r_ph2 f with [], [] => true | _, _ => false end.
+
+(* listeners of the type with their filter verdicts, listeners that were called (in call order) *)
+Definition disp_check (c : list (bool * nat) * list nat) : bool :=
+  list_beq Nat.eqb (dispatch_calls (fst c)) (snd c).
